@@ -287,6 +287,9 @@ loop:
 			res.Parked = append(res.Parked, ParkedInfo{g.id, g.name, g.parkOp})
 		}
 	}
+	if w.status != StatusHole {
+		reapAbandoned(w)
+	}
 	return res
 }
 
@@ -301,18 +304,38 @@ func (w *World) newG(name string, parent int) *G {
 
 func (w *World) body(g *G, f func(), isScript bool) {
 	<-g.wake
+	if w.dead {
+		// never ran: its world ended first
+		<-reapCh
+		g.state = gDone
+		select {
+		case reapDone <- struct{}{}:
+		default:
+		}
+		return
+	}
 	defer func() {
+		if reaping {
+			recover()
+			g.state = gDone
+			select {
+			case reapDone <- struct{}{}:
+			default:
+			}
+			return
+		}
 		if r := recover(); r != nil {
 			if w.dead {
-				select {} // abandoned world
+				abandon()
 			}
 			w.panicV = fmt.Sprint(r)
 			w.panicS = trimStack(string(debug.Stack()))
 			w.finish(StatusPanic)
-			select {}
+			g.state = gDone
+			return
 		}
 		if w.dead {
-			select {}
+			abandon()
 		}
 		g.state = gDone
 		if isScript {
@@ -325,9 +348,69 @@ func (w *World) body(g *G, f func(), isScript bool) {
 	f()
 }
 
-// abandon parks the calling goroutine forever: the world it belonged to is over. No deferred
-// function of an abandoned goroutine ever runs, which is what a process crash means.
-func abandon() { select {} }
+// abandon parks the calling goroutine: the world it belonged to is over. Nothing it does from here
+// on is part of the simulated execution (a crash means no deferred function runs). After the host has
+// extracted the results, abandoned goroutines are reaped one at a time with runtime.Goexit so that
+// their memory can be collected; while that happens every simrt operation that would block exits
+// the goroutine again and the harness recorders ignore whatever deferred functions do.
+func abandon() {
+	<-reapCh
+	runtime.Goexit()
+}
+
+// reapCh is closed... never; reaping hands out one token per abandoned goroutine.
+var reapCh = make(chan struct{})
+
+// reaping is true while abandoned goroutines of a finished world are being unwound.
+var reaping bool
+
+var reapDone = make(chan struct{}, 1)
+
+func reapAbandoned(w *World) {
+	reaping = true
+	n := 0
+	for _, g := range w.gs {
+		if g.state == gDone {
+			continue
+		}
+		// every unfinished goroutine is either parked on its wake channel or in abandon()
+		select {
+		case g.wake <- struct{}{}:
+		default:
+		}
+		n++
+	}
+	// goroutines parked in switchFrom wake up, see w.dead and call abandon(); release them all
+	deadline := time.After(3 * time.Second)
+	released := 0
+	for released < n {
+		select {
+		case reapCh <- struct{}{}:
+			// one goroutine took a token and is unwinding; wait for it so that only one runs at a time
+			select {
+			case <-reapDone:
+			case <-deadline:
+				if os.Getenv("KAPSIM_STACKS") != "" {
+					buf := make([]byte, 1<<20)
+					n := runtime.Stack(buf, true)
+					fmt.Fprintf(os.Stderr, "---- reap timeout (unwinding) ----\n%s\n", buf[:n])
+				}
+				reaping = false
+				return
+			}
+			released++
+		case <-deadline:
+			if os.Getenv("KAPSIM_STACKS") != "" {
+				buf := make([]byte, 1<<20)
+				n := runtime.Stack(buf, true)
+				fmt.Fprintf(os.Stderr, "---- reap timeout (nobody takes a token; %d of %d) ----\n%s\n", released, n, buf[:n])
+			}
+			reaping = false
+			return
+		}
+	}
+	reaping = false
+}
 
 func trimStack(s string) string {
 	lines := strings.Split(s, "\n")
@@ -646,6 +729,9 @@ func Park(op string, ready func() bool) {
 		if ready() {
 			return
 		}
+		if reaping {
+			runtime.Goexit()
+		}
 		fatalf("blocking operation %q outside a simulated world", op)
 	}
 	if w.dead {
@@ -670,6 +756,9 @@ func Park(op string, ready func() bool) {
 func Go(site string, f func()) {
 	w := W
 	if w == nil {
+		if reaping {
+			return
+		}
 		fatalf("go statement at %s outside a simulated world", site)
 	}
 	if w.dead {
